@@ -10,6 +10,10 @@ ALT_CONFIGS = [{'name': 'poll2-driver', 'config_undef': ['HAVE_EPOLL_CREATE1', '
 DECIDES = ('Decides unlink-before-dispatch, one-shot jobs, timer and poll slot state machines (by finite evaluation over the slot '
            'state), stale-handle checks before any slot access, tombstone discipline, signal clone purge on delete and the stop '
            're-test; exactly-once over arbitrary add/mod/del histories is not decided.')
+# what the handler may call: the pipe write, errno, and functions POSIX.1-2016 lists as async-signal-safe that have no
+# side effect on shared state (string/memory primitives)
+AS_SAFE = {'write', '__errno_location', 'strlen', 'memcpy', 'memmove', 'memset', 'memcmp', 'strcmp', 'strncmp', 'strcpy', 'strncpy',
+           'getpid', 'abort', '_exit'}
 RULES = {
     'R1': 'run_level unlinks and re-initialises the item before dispatch; level_item_del only unlinks/decrements a linked item',
     'R2': 'job_dispatch calls the user function once, frees the job on every path, never re-adds; jobs enter the wait list only in qb_loop_job_add',
@@ -303,7 +307,7 @@ def r6(ctx):
     prog = ctx.prog
     h = prog.fn('_handle_real_signal_')
     calls = {ev.callee for ev in h.events('CALL')}
-    ctx.check('R6', 'handler-async-safe', calls <= {'write', '__errno_location'}, h, 'the signal handler only writes to the pipe',
+    ctx.check('R6', 'handler-async-safe', calls <= AS_SAFE, h, 'the signal handler only writes to the pipe',
               'the signal handler calls %s' % sorted(calls - {'write', '__errno_location'}))
     a = prog.fn('_qb_signal_add_to_jobs_')
     adds = list(a.calls('qb_loop_level_item_add'))
